@@ -215,6 +215,7 @@ var props = map[string]*Prop{
 		Bounds:      map[string]string{"quick": "sizes up to 1600 / depth up to 60", "thorough": "adds size 3200"},
 		Units: []Unit{
 			{Name: "adversarial-families", Pkg: "pkg/diff", Test: "TestVerifC17", Shards: sh(8, 8), TimeoutS: sh(1800, 3600), DeadlineS: sh(900, 3000)},
+			{Name: "oversized-inputs", Pkg: "internal/cli", Test: "TestVerifC17Inputs", Shards: sh(16, 16), TimeoutS: sh(1800, 1800)},
 		},
 	},
 	"C13": {
